@@ -315,7 +315,17 @@ func (m *Machine) equal(x, y Value) *sym.Term {
 		yp, _ := yv.P.(*Value)
 		return c.Bool(xp == yp && xv.Str == yv.Str)
 	case Native:
-		return c.Bool(xv.V == y.(Native).V)
+		yn, ok := y.(Native)
+		if !ok {
+			return c.False
+		}
+		if xt, ok := xv.V.(types.Type); ok {
+			if yt, ok := yn.V.(types.Type); ok {
+				return c.Bool(types.Identical(xt, yt))
+			}
+			return c.False
+		}
+		return c.Bool(xv.V == yn.V)
 	case *ssa.Builtin:
 		return c.False
 	}
